@@ -106,8 +106,18 @@ def proof_phase(spec, tier):
         names, printed, assum, okp, outp = V.property_theorems(pid)
         if not okp:
             proof_break = outp[-3000:]
-    obligations = len(names) + len(spec.get("gen_obligations", []))
+    obligations = len(names) + len(spec.get("gen_obligations", [])) + len(spec.get("side_conditions", []))
     discharged = 0
+    # side conditions regenerated from the sources (translator): a failing one is a broken tie
+    side_fail = []
+    for name, fn in spec.get("side_conditions", []):
+        okc, text = fn()
+        if okc:
+            discharged += 1
+        else:
+            side_fail.append(f"side condition {name} (regenerated from the sources) no longer holds:\n{text}")
+    if side_fail and not proof_break:
+        proof_break = "\n".join(side_fail)[-3000:]
     if ok and okp:
         for n in names:
             if n in assum and V.assumptions_ok(assum[n]):
